@@ -37,7 +37,10 @@ def _folder_record(specs, data, password):
 def _streams(t, packpos, packed, fnodes, fsizes, fcrcs, packcrc, sub_items):
     pack = {"t": "PackInfo", "packpos": packpos, "numstreams": len(packed), "end": True,
             "items": [{"t": "Size", "sizes": [len(p) for p in packed]}]}
-    if packcrc:
+    if packcrc == "partial" and len(packed) > 1:
+        # a partially defined digest vector: every other packed stream carries a CRC (the first one does not)
+        pack["items"].append(_digest_node([crc32(p) if k % 2 else None for k, p in enumerate(packed)]))
+    elif packcrc:
         pack["items"].append(_digest_node([crc32(p) for p in packed]))
     unpack = {"t": "UnpackInfo", "end": True, "items": [
         {"t": "Folder", "numfolders": len(fnodes), "external": 0, "folders": fnodes},
